@@ -242,8 +242,8 @@ def run(ctx):
         keep.append((key, ob, created))
         ctx.traces += 1
     # arrays beyond the 80 MiB default chunk (direct oracle only: too large for a Coq literal)
-    bigs = [dict(kind='asarray2d'), dict(kind='copy'), dict(kind='wideasarray')] if ctx.quick else \
-        [dict(kind=k) for k in ('asarray2d', 'fill1d', 'asarray1d', 'copy', 'wideasarray', 'widecopy')]
+    bigs = [dict(kind='asarray2d'), dict(kind='copy'), dict(kind='wideasarray'), dict(kind='exactmultiple')] if ctx.quick else \
+        [dict(kind=k) for k in ('asarray2d', 'fill1d', 'asarray1d', 'copy', 'wideasarray', 'widecopy', 'exactmultiple')]
     for case, ob in zip(bigs, ctx.run_impl(bigs, 'big', shards=len(bigs), timeout=1800)):
         key = dict(form='big:' + case['kind'])
         if 'harness_error' in ob:
